@@ -56,6 +56,17 @@ def gen_case(seed, tier="quick"):
         c = r.random()
         dom = GG.gen_iv(r, "x") if c < 0.2 else (GG.gen_sph(r, "x") if c < 0.3 else GG.gen_prim2(r, "x"))
         case.update(dom=dom, pspace=[], prow=[], n=r.choice((200, 500, 1000, 4000)))
+        rb = rnd(seed, "grid-bool-boundary")
+        if rb.random() < 0.3:
+            # grids on the boundary of a Boolean combination of two primitives (partly overlapping, asymmetric pieces)
+            bd = None
+            for _ in range(30):
+                bd = GG.gen_bool(rb, rng, GG.gen_prim2(rb, "x"), [], "x")
+                if bd is not None:
+                    break
+            if bd is not None:
+                case.update(dom={"k": "bnd", "d": bd}, n=rb.choice((200, 500, 1000)), c=0.8)
+                return case
         rg = rnd(seed, "grid-rows")
         if G.space(dom)[0][1] == 2 and rg.random() < 0.4:
             # a fixed shape moved by a parameter-dependent translation / rotation, gridded for 2-3 rows in ONE call
